@@ -36,10 +36,11 @@
 (* directories, failing module bodies) is transcribed in PyKind / Settle / *)
 (* Import / ImportFail.                                                    *)
 (*                                                                         *)
-(* `Bug` selects a seeded defect of the *model* (the mutants of the        *)
-(* self-test, transcribed): TLC must report the named invariant for each,  *)
-(* which shows that the invariants are not vacuous.  Bug = "none" is the   *)
-(* code as it is.                                                          *)
+(* cfg.bug selects a seeded defect of the *model* (the mutants of the      *)
+(* self-test, transcribed; constant Bugs = the defects tried, {"none"} in  *)
+(* every verifying run): with LoadProtocol_bugs.cfg TLC must report every  *)
+(* Catch... invariant violated, which shows that the clauses are not       *)
+(* vacuous.  bug = "none" is the code as it is.                            *)
 (***************************************************************************)
 EXTENDS Naturals, Sequences, FiniteSets, TLC, Json
 
@@ -55,7 +56,7 @@ CONSTANTS
   ExtStyles,     \* how p refers to the external package: "none", "name" (from q import X), "star" (from q import *)
   ExtPrivates,   \* subset of BOOLEAN: the external package is the private sibling _p
   ExtKinds,      \* py (q.py), sofile (compiled single-file module), missing
-  Bug            \* "none" | "allowFirst" | "noReraise" | "noFinally" | "stubsDynamic" | "externalInspect"
+  Bugs           \* subset of {"none", "allowFirst", "noReraise", "noFinally", "stubsDynamic", "externalInspect"}
 
 VARIABLES
   cfg,          \* the case (constant during the behaviour)
@@ -87,6 +88,7 @@ Mods == {"p", "a", "b", "q", "s"}          \* s = the stubs of p (in-package __i
 
 \* ---- the case ------------------------------------------------------------------------------------
 Static == ~cfg.allow /\ ~cfg.force
+Bug == cfg.bug
 FileOf(m) ==
   CASE m \in {"p", "a", "b"} -> cfg.file[m]
     [] m = "q" -> IF cfg.extstyle = None THEN "missing" ELSE cfg.extkind
@@ -204,6 +206,7 @@ InitCase ==
         kb \in (IF top \in {"sofile", "missing"} THEN {"missing"} ELSE KidsB) :
      \E es \in (IF top \in {"py", "pyi"} THEN ExtStyles ELSE {None}) :
      \E ep \in (IF es = None THEN {FALSE} ELSE ExtPrivates), ek \in (IF es = None THEN {"missing"} ELSE ExtKinds) :
+     \E bg \in Bugs :
      \E fp \in FaultsFor(top, TopFaults), fa \in FaultsFor(ka, KidFaults), fb \in FaultsFor(kb, KidFaults),
         fq \in FaultsFor(IF es = None THEN "missing" ELSE ek, ExtFaults) :
        /\ (ka = "missing" /\ kb = "missing") => lay = "flat"          \* the layouts coincide
@@ -213,7 +216,7 @@ InitCase ==
                  findstubs |-> FindStubsOf(sm), stubs |-> StubsOf(sm), layout |-> lay,
                  file |-> [p |-> top, a |-> ka, b |-> kb],
                  extstyle |-> es, extprivate |-> ep, extkind |-> ek,
-                 fault |-> [p |-> fp, a |-> fa, b |-> fb, q |-> fq]]
+                 fault |-> [p |-> fp, a |-> fa, b |-> fb, q |-> fq], bug |-> bg]
 InitRun ==
   /\ pc = "Construct" /\ lstack = <<>> /\ cur = None /\ role = None /\ dyn = NoDyn /\ exc = None
   /\ sysPath = "orig" /\ savedPath = <<>> /\ sysModules = {} /\ executed = {}
@@ -509,6 +512,15 @@ OutcomeLegal ==
 TypeOK ==
   /\ sysPath \in {"orig", "search"} /\ sysModules \subseteq {"p", "a", "b", "q"} /\ executed \subseteq {"p", "a", "b", "q"}
   /\ Len(lstack) <= 2 /\ skipped \subseteq offered /\ members \subseteq offered
+
+\* seeded defects of the model: each one must be caught by a clause (LoadProtocol_bugs.cfg, run with -continue)
+CleanHolds == Bug = "none" => /\ NoExecutionWhenStatic /\ NoPathSwapWhenStatic /\ CompiledSkippedWhenStatic /\ SourceVisitedUnlessForced
+                              /\ PathRestoredAtEnd /\ PathRestoredOutsideImport /\ Balanced /\ OutcomeLegal
+CatchAllowFirst == Bug = "allowFirst" => SourceVisitedUnlessForced
+CatchNoReraise == Bug = "noReraise" => NoExecutionWhenStatic
+CatchNoFinally == Bug = "noFinally" => (Balanced /\ PathRestoredAtEnd)
+CatchStubsDynamic == Bug = "stubsDynamic" => NoExecutionWhenStatic
+CatchExternalInspect == Bug = "externalInspect" => NoExecutionWhenStatic
 
 \* every terminal state is printed: one implementation test per case (gverif/props/c15.py replays it)
 EmitCase ==
